@@ -217,6 +217,9 @@ func (e *Engine) verifyFunc(key string) (*VC, error) {
 			continue
 		}
 		vc.assert(t)
+		if r.Kind == "assume" {
+			vc.assumed["assumed axiom: "+r.Name()] = true
+		}
 	}
 	// preconditions with ghosts hold for every value of the ghosts: also at the terms of the
 	// `instantiate` clauses that can be evaluated in the entry state (one ghost at a time)
